@@ -4,6 +4,7 @@ package props
 import (
 	_ "verif/sim/c02"
 	_ "verif/sim/c03"
+	_ "verif/sim/c04"
 	_ "verif/sim/c08"
 	_ "verif/sim/c16"
 	_ "verif/sim/c17"
